@@ -8,6 +8,7 @@ Read-only imports of the other properties' ROM specifications; nothing there is 
 import SpsdkVerif.Proofs.CertBlock
 import SpsdkVerif.Model.Sb31
 import SpsdkVerif.Proofs.MbiRomDefs
+import SpsdkVerif.Proofs.RkhtBinding
 
 namespace SpsdkVerif.CertBlock
 open SpsdkVerif SpsdkVerif.Spec
@@ -200,6 +201,131 @@ theorem sb31_romCert_accepts {c : CryptoOps} {pointOk : Bytes → Bool} {ca : Bo
     by_cases h1 : cb.rkr.rkh.length > 1
     · simp only [h1, ↓reduceIte, hentry h1, beq_self_eq_true, check_true, rbind_ok]
     · simp only [h1, ↓reduceIte, beq_self_eq_true, check_true, rbind_ok]
+
+/-- SB3.1 loader, for ANY fuse value `rot`: the walk over a well-formed exported block succeeds exactly when `rot` is the fuse
+    value of the block's root key record (otherwise it stops with `certRotkh`) -/
+theorem sb31_romCert_eval {c : CryptoOps} {pointOk : Bytes → Bool} {ca : Bool} {used : Nat} {cv : Curve} {cb : CertBlockV21}
+    (wf : WFv21 c pointOk ca used cv cb) (rw_ : RomWF c used cv cb)
+    (hsig : ∀ i, cb.isk = some i →
+      c.verify (.ecdsa cv.hashAlg) cb.rkr.rootPublicKey (rkrBytes cb.rkr ++ iskSignedPart i) i.signature = true)
+    (rot : Bytes) :
+    romCert c rot (bytesV21 cb) =
+      (check (rotkhOfRecord c cv cb.rkr == rot) .certRotkh >>= fun _ =>
+      .ok (⟨(signerOf cv cb).1, (signerOf cv cb).2⟩,
+           match cb.isk with
+           | none => []
+           | some i => [⟨cv.hashAlg.size, cb.rkr.rootPublicKey, rkrBytes cb.rkr ++ iskSignedPart i, i.signature⟩])) := by
+  have hm : ([0x63, 0x68, 0x64, 0x72] : Bytes).length = 4 := rfl
+  have p16 : (65536 : Nat) = 256 ^ 2 := by decide
+  have p32 : (2 : Nat) ^ 32 = 256 ^ 4 := by decide
+  have wr := wf.rkr
+  obtain ⟨d1, d2, d3, d4⟩ := rkr_div ca used cb.rkr.rkh.length cv wr.used_lt (by have := wr.count4; omega) wr.cv_ok
+  rw [← wr.flags] at d1 d2 d3 d4
+  have hfl : cb.rkr.flags < 256 ^ 4 := by rw [← p32]; exact (rkrFlags_lt wr).1
+  have hflat := Rkht.flatten_lenN _ _ wr.rkh
+  have hcnt : (1 ≤ cb.rkr.rkh.length && cb.rkr.rkh.length ≤ 4 && used < cb.rkr.rkh.length) = true := by
+    simp [wr.count1, wr.count4, rw_.used_lt]
+  have hsz := wf.size
+  have hpk2 : cb.rkr.rootPublicKey.length = 2 * cv.hashAlg.size := by rw [wr.pk]; omega
+  -- the table as the ROM takes it
+  have htab : exportV21 cb.rkr.rkh = if cb.rkr.rkh.length > 1 then cb.rkr.rkh.flatten else [] := rfl
+  have htl : (exportV21 cb.rkr.rkh).length = if cb.rkr.rkh.length > 1 then cb.rkr.rkh.length * cv.hashAlg.size else 0 := by
+    rw [htab]; split
+    · rw [hflat, Nat.mul_comm]
+    · rfl
+  have hentry : cb.rkr.rkh.length > 1 →
+      ((exportV21 cb.rkr.rkh).drop (used * cv.hashAlg.size)).take cv.hashAlg.size = c.hash cv.hashAlg cb.rkr.rootPublicKey := by
+    intro h1
+    have : exportV21 cb.rkr.rkh = cb.rkr.rkh.flatten := by simp [exportV21, h1]
+    rw [this]; exact flatten_entry _ _ _ _ wr.rkh (rw_.entry h1)
+  have hrk : rotkhOfRecord c cv cb.rkr = if cb.rkr.rkh.length > 1 then c.hash cv.hashAlg (exportV21 cb.rkr.rkh)
+      else c.hash cv.hashAlg cb.rkr.rootPublicKey := by
+    simp only [rotkhOfRecord, exportV21]; split <;> rfl
+  cases ca with
+  | true =>
+    have hn := wf.isk_none rfl
+    rw [hn] at hsz
+    have hsz' : headerSizeV21 + (rkrBytes cb.rkr).length < 256 ^ 4 := by rw [← p32]; simpa using hsz
+    have hb : bytesV21 cb = [0x63, 0x68, 0x64, 0x72] ++ (leEnc 2 cb.minor ++ (leEnc 2 cb.major ++
+        (leEnc 4 (headerSizeV21 + (rkrBytes cb.rkr).length) ++ (leEnc 4 cb.rkr.flags ++ (exportV21 cb.rkr.rkh ++
+        (cb.rkr.rootPublicKey ++ [])))))) := by
+      simp only [bytesV21, hn, rkrBytes, List.append_assoc, List.length_nil, Nat.add_zero, List.append_nil]; rfl
+    have hlen : (bytesV21 cb).length = headerSizeV21 + (rkrBytes cb.rkr).length := by
+      simp only [bytesV21, hn, List.length_append, leEnc_len, List.length_nil, headerSizeV21]
+      have : G.cbV21Magic.length = 4 := rfl
+      omega
+    simp only [romCert]
+    rw [hlen, hb]
+    simp only [sb_takeB _ _ 4 hm, rbind_ok, beq_self_eq_true, check_true,
+      rw_.major, rw_.minor, sb_takeU 2 1 _ (by decide), sb_takeU 2 2 _ (by decide), Bool.and_self, sb_takeU 4 _ _ hsz', sb_takeU 4 cb.rkr.flags _ hfl, d1, d2, d3, d4,
+      coordOfCurve_bit cv wr.cv_ok, hcnt, algOfCoord_size cv wr.cv_ok,
+      sb_takeB (exportV21 cb.rkr.rkh) _ _ htl, sb_takeB cb.rkr.rootPublicKey _ _ hpk2, hrk]
+    by_cases h1 : cb.rkr.rkh.length > 1
+    · simp only [h1, ↓reduceIte, hentry h1, beq_self_eq_true, check_true, rbind_ok, List.isEmpty_nil, rpure_ok, signerOf, hn]
+    · simp only [h1, ↓reduceIte, beq_self_eq_true, check_true, rbind_ok, List.isEmpty_nil, rpure_ok, signerOf, hn]
+  | false =>
+    obtain ⟨i, hi, wi⟩ := wf.isk_some rfl
+    rw [hi] at hsz
+    have hsz' : headerSizeV21 + (rkrBytes cb.rkr).length + (iskBytes i).length < 256 ^ 4 := by rw [← p32]; exact hsz
+    obtain ⟨k1, k2⟩ := iskFlags_div i.userData i.pubKey.length wi.pub
+    rw [← wi.flags] at k1 k2
+    obtain ⟨f1, _, _⟩ := iskFlags_facts i.userData i.pubKey.length wi.pub
+    have hif : i.flags < 256 ^ 4 := by rw [wi.flags, ← p32]; exact f1
+    have hpl : 2 * (i.pubKey.length / 2) = i.pubKey.length := by rcases wi.pub with h | h <;> rw [h]
+    have hso : iskSigOffset i = 12 + i.userData.length + i.pubKey.length := by simp [iskSigOffset, wi.offset]
+    have hb : bytesV21 cb = [0x63, 0x68, 0x64, 0x72] ++ (leEnc 2 cb.minor ++ (leEnc 2 cb.major ++
+        (leEnc 4 (headerSizeV21 + (rkrBytes cb.rkr).length + (iskBytes i).length) ++ (leEnc 4 cb.rkr.flags ++
+        (exportV21 cb.rkr.rkh ++ (cb.rkr.rootPublicKey ++ (leEnc 4 (iskSigOffset i) ++ (leEnc 4 i.constraints ++
+        (leEnc 4 i.flags ++ (i.pubKey ++ (i.userData ++ (i.signature ++ [])))))))))))) := by
+      simp only [bytesV21, hi, rkrBytes, iskBytes, List.append_assoc, List.append_nil]; rfl
+    have hlen : (bytesV21 cb).length = headerSizeV21 + (rkrBytes cb.rkr).length + (iskBytes i).length := by
+      simp only [bytesV21, hi, List.length_append, leEnc_len, headerSizeV21]
+      have : G.cbV21Magic.length = 4 := rfl
+      omega
+    have hrec : ((bytesV21 cb).drop 12).take (4 + (exportV21 cb.rkr.rkh).length + 2 * cv.hashAlg.size) = rkrBytes cb.rkr := by
+      have : bytesV21 cb = ([0x63, 0x68, 0x64, 0x72] ++ leEnc 2 cb.minor ++ leEnc 2 cb.major ++
+          leEnc 4 (headerSizeV21 + (rkrBytes cb.rkr).length + (iskBytes i).length)) ++ (rkrBytes cb.rkr ++ iskBytes i) := by
+        simp only [bytesV21, hi, List.append_assoc]; rfl
+      rw [this, List.drop_left' (by simp only [List.length_append, leEnc_len, hm])]
+      exact List.take_left' (by simp only [rkrBytes, List.length_append, leEnc_len, hpk2])
+    have hso2 : iskSigOffset i - 12 - 2 * (i.pubKey.length / 2) = i.userData.length := by rw [hpl, hso]; omega
+    have hle : (12 + 2 * (i.pubKey.length / 2) ≤ iskSigOffset i) := by rw [hpl, hso]; omega
+    have hsl : i.signature.length = 2 * cv.hashAlg.size := by rw [wi.sig, hpk2]
+    have htk : (leEnc 4 (iskSigOffset i) ++ (leEnc 4 i.constraints ++ (leEnc 4 i.flags ++ (i.pubKey ++ (i.userData ++
+        (i.signature ++ [])))))).take (iskSigOffset i) = iskSignedPart i := by
+      have : leEnc 4 (iskSigOffset i) ++ (leEnc 4 i.constraints ++ (leEnc 4 i.flags ++ (i.pubKey ++ (i.userData ++
+        (i.signature ++ []))))) = iskSignedPart i ++ (i.signature ++ []) := by simp only [iskSignedPart, List.append_assoc]
+      rw [this]; exact List.take_left' (by simp only [iskSignedPart, List.length_append, leEnc_len, hso]; omega)
+    simp only [romCert]
+    rw [hlen, congrArg (takeB 4) hb]
+    simp only [sb_takeB _ _ 4 hm, rbind_ok, beq_self_eq_true, check_true,
+      rw_.major, rw_.minor, sb_takeU 2 1 _ (by decide), sb_takeU 2 2 _ (by decide), Bool.and_self,
+      sb_takeU 4 _ _ hsz', sb_takeU 4 cb.rkr.flags _ hfl, d1, d2, d3, d4,
+      coordOfCurve_bit cv wr.cv_ok, hcnt, algOfCoord_size cv wr.cv_ok,
+      sb_takeB (exportV21 cb.rkr.rkh) _ _ htl, sb_takeB cb.rkr.rootPublicKey _ _ hpk2, hrk,
+      sb_takeU 4 (iskSigOffset i) _ (by rw [← p32]; exact wi.sigoff),
+      sb_takeU 4 i.constraints _ (by rw [← p32]; exact wi.constraints), sb_takeU 4 i.flags _ hif, k1, k2, hle, decide_true,
+      sb_takeB i.pubKey _ _ hpl.symm, hso2, sb_takeB i.userData _ _ rfl, sb_takeB i.signature _ _ hsl, List.isEmpty_nil,
+      htk, hrec, hsig i hi, signerOf, hi, rpure_ok, Bool.false_eq_true]
+    by_cases h1 : cb.rkr.rkh.length > 1
+    · simp only [h1, ↓reduceIte, hentry h1, beq_self_eq_true, check_true, rbind_ok]
+    · simp only [h1, ↓reduceIte, beq_self_eq_true, check_true, rbind_ok]
+
+
+
+/-- acceptance by the SB3.1 loader ⇒ the fuses hold the fuse value of the block's root key record -/
+theorem sb31_romCert_ok_rot {c : CryptoOps} {pointOk : Bytes → Bool} {ca : Bool} {used : Nat} {cv : Curve} {cb : CertBlockV21}
+    (wf : WFv21 c pointOk ca used cv cb) (rw_ : RomWF c used cv cb)
+    (hsig : ∀ i, cb.isk = some i →
+      c.verify (.ecdsa cv.hashAlg) cb.rkr.rootPublicKey (rkrBytes cb.rkr ++ iskSignedPart i) i.signature = true)
+    (rot : Bytes) (x : Sb31.Rom.CertInfo × List Sb31.Rom.SigOb) (h : romCert c rot (bytesV21 cb) = .ok x) :
+    rot = rotkhOfRecord c cv cb.rkr := by
+  rw [sb31_romCert_eval wf rw_ hsig rot] at h
+  by_cases e : (rotkhOfRecord c cv cb.rkr == rot) = true
+  · exact (beq_iff_eq.mp e).symm
+  · simp only [Bool.not_eq_true] at e
+    rw [e] at h
+    cases h
 
 section MbiRom
 open SpsdkVerif.Spec.MbiRom (rd32 rd16 sub need Rom romCertV21 romCertV1 Obligation coordSizeOfCode hashOfCoord)
@@ -846,6 +972,30 @@ theorem built_v1_block_accepted (c : CryptoOps) (hc : CryptoLaws c) (ks : List K
   have hrk : cb.rkh = ks.map (keyHash c) := by injection hrkh with e; exact e.symm
   rw [hr, hrk]
   simp [Spec.rotkh, rotkhCa, rotkhV1, rkhTableV1, pad4, List.map_map, Function.comp_def]
+
+/-- NEGATIVE, as a reduction: a device fused for the key list `ks` accepts (SB3.1 loader) the block SPSDK builds from a key
+    list `ks'` of the same length only if `ks' = ks` - or the proof exhibits a hash collision -/
+theorem rom_refuses_other_keys (c : CryptoOps) (hc : CryptoLaws c) (ks ks' : List Key) (h : KeysOK .certBlock21 ks)
+    (h' : KeysOK .certBlock21 ks') (hl : ks'.length = ks.length) (used : Nat) (hu : used < ks'.length)
+    (r' : RootKeyRecord) (hcalc : rkrCalculate c true ks' used = .ok r')
+    (x : Sb31.Rom.CertInfo × List Sb31.Rom.SigOb)
+    (hacc : Sb31.Rom.romCert c (Spec.rotkh c .certBlock21 ks) (bytesV21 ⟨2, 1, r', none⟩) = .ok x) :
+    ks' = ks ∨ Crypto.Break c := by
+  obtain ⟨h1, h4, _, _⟩ := keysOK_cb21 h'
+  obtain ⟨cv, ku, hcv, hku, hkc, hall, hcalc'⟩ := rkrCalculate_ok c hc ks' h' used hu true
+  rw [hcalc] at hcalc'
+  injection hcalc' with hr
+  subst hr
+  have wr := wf_calculated c hc ks' cv ku used true hcv h1 h4 hu hku hkc hall
+  have wf := wf_caBlock (c := c) (fun _ => true) wr
+  have rw_ := romWF_calculated c ks' cv ku used (rkrFlags true used ks'.length cv) none hku hu hall
+  have hrot := rotkhOfRecord_calculated c ks' cv ku used (rkrFlags true used ks'.length cv) h1 hku hu hall
+  have := sb31_romCert_ok_rot wf rw_ (fun i hi => by cases hi) _ x hacc
+  rw [hrot] at this
+  have e : ∀ l, Spec.rotkh c .certBlock21 l = rotkhV21 c l := by
+    intro l; simp [Spec.rotkh, rotkhCa, List.map_map, Function.comp_def]
+  rw [e, e] at this
+  exact rotkhV21_binding c hc ks' ks h' h hl this.symm
 
 end EndToEnd
 
